@@ -23,11 +23,19 @@ import finam as fm
 from common import EPOCH, load, verdict
 
 
-def build(n_cons, limit, loc):
+def build(n_cons, limit, loc, fan=False):
     out = fm.Output("out", fm.Info(time=EPOCH, grid=fm.NoGrid(), units="m"))
     ins = [fm.Input(f"in{i}", fm.Info(time=EPOCH, grid=fm.NoGrid(), units="m")) for i in range(n_cons)]
-    for i in ins:
-        out >> i
+    if fan and n_cons > 1:
+        # consumers branch off behind one pass-through adapter: one direct target, several end consumers
+        ad = fm.adapters.Scale(1.0)
+        out >> ad
+        for i in ins[:-1]:
+            ad >> i
+        out >> ins[-1] if n_cons > 2 else ad >> ins[-1]
+    else:
+        for i in ins:
+            out >> i
     for i in ins:
         i.ping()
     out.memory_limit = limit
@@ -37,9 +45,9 @@ def build(n_cons, limit, loc):
     return out, ins
 
 
-def run(events, n_cons, limit, loc, unit):
+def run(events, n_cons, limit, loc, unit, fan=False):
     """events: ('push', t) | ('pull', c, t); returns None or failure text"""
-    out, ins = build(n_cons, limit, loc)
+    out, ins = build(n_cons, limit, loc, fan)
     hist = []
     last = [None] * n_cons
     try:
@@ -115,19 +123,31 @@ def main():
             n_cons = rng.choice([1, 1, 2, 3])
             ev = gen_events(rng, n_cons)
             unit = rng.choice([timedelta(microseconds=1), timedelta(seconds=1)])
+            fan = rng.random() < 0.4
             for limit, l in ((None, None), (0, loc)):
-                f = run(ev, n_cons, limit, l, unit)
+                f = run(ev, n_cons, limit, l, unit, fan)
                 for fn in os.listdir(loc):
                     os.unlink(os.path.join(loc, fn))
                 if f:
-                    return True, f"failing history (unit {unit}, consumers {n_cons}, memory_limit {limit}): {ev} -> {f}"
+                    return True, f"failing history (unit {unit}, consumers {n_cons}, behind-one-adapter {fan}, memory_limit {limit}): {ev} -> {f}"
         return False, f"no failing history among {n} sampled event sequences x 2 memory limits"
     finally:
         shutil.rmtree(loc, ignore_errors=True)
 
 
 if __name__ == "__main__":
-    if len(sys.argv) > 1 and sys.argv[1] != "-":
+    if len(sys.argv) > 1 and sys.argv[1] not in ("-", "--tier", "--json", "--seed"):
         rep = load()
+    if "--seed" in sys.argv:
+        os.environ["VERIF_SEED"] = sys.argv[sys.argv.index("--seed") + 1]
+    if "--tier" in sys.argv and sys.argv[sys.argv.index("--tier") + 1] == "thorough":
+        os.environ.setdefault("SEQ_N", "20000")
     ok, msg = main()
-    verdict(ok, msg)
+    if "--json" in sys.argv:
+        import json
+        n = int(os.environ.get("SEQ_N", "1500"))
+        print(json.dumps({"evaluations": 2 * n, "distinct_nontrivial": n, "violations": [{"case": msg}] if ok else [],
+                          "rule": "random push/pull event sequences on a real Output with 1-3 direct or adapter-fanned consumers, x {no limit, limit 0}; distinct = sampled sequences (seeded)",
+                          "bound": "<= 6 publications, <= 14 events, gaps {1,2,3,5}"}))
+    else:
+        verdict(ok, msg)
